@@ -182,7 +182,7 @@ func main() {
 		"duplicates, extensions of the first, disjoint ones; 80% ordered by length) x every k in 1..n+2 (k in {-1,0} only counted); " +
 		"non-trivial = 2 <= k < n (selection branch); distinct by op text; spec predicate on every case with k >= 1"
 	algo := beacon.DefaultSelectionAlgorithm()
-	nsets := e.N(12000, 250000)
+	nsets := e.N(12000, 120000)
 	for i := 0; i < nsets; i++ {
 		r := vlib.CaseRand(e.Seed, i)
 		cs := genSet(r, i < 400)
